@@ -30,6 +30,7 @@ type World struct {
 	OnSend   func(n int, d []byte)
 	cancelAt int
 	cancelFn context.CancelFunc
+	ctxCalls int
 }
 
 // NewWorld wires a fresh BMC, transport and library connection. The back-off is
@@ -52,11 +53,20 @@ func NewWorld(seed uint64, strict bool) *World {
 
 // Ctx returns a context that the harness cancels inside the k-th Send counted
 // from now (so "expiry" is deterministic and clock-free). k <= 0 never cancels.
+//
+// Every other context additionally carries a deadline 20 minutes away: far
+// beyond any call the checks make, but closer than one attempt timeout (an
+// hour), so callers with and without a deadline are both exercised.
 func (w *World) Ctx(k int) (context.Context, context.CancelFunc) {
 	ctx, cancel := context.WithCancel(context.Background())
 	w.cancelAt, w.cancelFn = 0, nil
 	if k > 0 {
 		w.cancelAt, w.cancelFn = w.Net.Sends+k, cancel
+	}
+	w.ctxCalls++
+	if w.ctxCalls%2 == 0 {
+		dctx, dcancel := context.WithTimeout(ctx, 20*time.Minute)
+		return dctx, func() { dcancel(); cancel() }
 	}
 	return ctx, cancel
 }
